@@ -12,7 +12,7 @@ from c09 import canon_obs, root_cls, sub_patterns, CannotJudge
 PROP = "C04"
 META = {
  "engine": "P-pattern-algebra",
- "text": "Coq theorems (Props/C04.v, closed under the global context) prove on the executable model of the pattern classes (Pat/Step.v: __init__, __next__, reset() incl. Pattern.reset's walk over vars(self)): for the reset fragment rpat (constants, sequences of scalars, series, ranges, geometric series, impulses, the 15 operators, &, abs, int, references, stutter, counter, pad, pad-to-multiple, skip-if, loop, ping-pong, reverse, subsequence, collapse, no-repeats, changed, diff, wrap, reset-on-trigger over a counter-state class, nested to any depth, parameters scalars or patterns of the fragment; proved closed under next(): C04_fragment_closed) reset() after ANY number of next() calls - including calls that raised StopIteration - yields exactly the state reset() yields on the untouched object, which for a newly constructed object is the object itself; hence the outputs after reset() are those of a new instance, repeated resets change nothing, and all() leaves the object rewound. The model is tied to the repository on every run by scripts next^k; reset; next^n; reset; next^n; all(m); next^n with k at 0, 1, block boundaries, exhaustion and beyond, on random expressions over every modelled class, compared inside Coq; an implementation-only oracle compares every post-reset output with a freshly constructed instance. Seedable and configurable classes (Pat/Seeded.v: constructors that draw, seed() overrides, __next__ that resets itself, configuration methods called at any time; generator as data): for every class meeting the contract `rewinds` - proved for PArpeggiator RANDOM, PRandomImpulseSequence with every(), all machines of Pat/Chance.v - and every history over next/reset/seed/configuration calls, reset() leaves exactly the newly constructed instance with the seed in force and the configuration calls made (C04_reset_is_fresh_configured_instance), and a freshly seeded instance consumed straight away is what reset() reproduces and what any other fresh instance with that seed is (C04_fresh_seeded_is_what_reset_reproduces, C04_seeded_instances_agree); PRef.set_pattern starts a new history (C04_reset_after_set_pattern). Tied to the repository by the seeded/configured stream: every PStochasticPattern subclass of the live package, seeded, configured through every / set_pattern / item assignment in the set-up and in mid-history, alone and nested, every clean segment compared with a newly constructed identically seeded and configured instance, recorded draws replayed through the model inside Coq.",
+ "text": "Coq theorems (Props/C04.v, closed under the global context) prove on the executable model of the pattern classes (Pat/Step.v: __init__, __next__, reset() incl. Pattern.reset's walk over vars(self)): for the reset fragment rpat (constants, sequences of scalars, series, ranges, geometric series, impulses, the 15 operators, &, abs, int, references, stutter, counter, pad, pad-to-multiple, skip-if, loop, ping-pong, reverse, subsequence, collapse, no-repeats, changed, diff, wrap, reset-on-trigger over a counter-state class, nested to any depth, parameters scalars or patterns of the fragment; proved closed under next(): C04_fragment_closed) reset() after ANY number of next() calls - including calls that raised StopIteration - yields exactly the state reset() yields on the untouched object, which for a newly constructed object is the object itself; hence the outputs after reset() are those of a new instance, repeated resets change nothing, and all() leaves the object rewound. The model is tied to the repository on every run by scripts next^k; reset; next^n; reset; next^n; all(m); next^n with k at 0, 1, block boundaries, exhaustion and beyond, on random expressions over every modelled class, compared inside Coq; an implementation-only oracle compares every post-reset output with a freshly constructed instance. Seedable and configurable classes (Pat/Seeded.v: constructors that draw, seed() overrides, __next__ that resets itself, configuration methods called at any time; generator as data): for every class meeting the contract `rewinds` - proved for PArpeggiator RANDOM, PRandomImpulseSequence with every(), all machines of Pat/Chance.v - and every history over next/reset/seed/configuration calls, reset() leaves exactly the newly constructed instance with the seed in force and the configuration calls made (C04_reset_is_fresh_configured_instance), and a freshly seeded instance consumed straight away is what reset() reproduces and what any other fresh instance with that seed is (C04_fresh_seeded_is_what_reset_reproduces, C04_seeded_instances_agree); PRef.set_pattern starts a new history (C04_reset_after_set_pattern). Stochastic patterns that contain stochastic patterns (Pat/SeededNest.v: the parent's __next__ is any program over its own draws and 'next value of child i', every child owns a generator and a seed): after any history of next / reset / seed of the parent / seed of a child, reset() leaves the newly constructed nest with, per object, the seed in force, and seeding a new nest in any order gives the nest constructed with those seeds - the parent's seed() spends nothing of its stream on the children (C04_nested_reset_is_fresh, C04_nested_seeding, C04_nested_seeded_then_reset). Tied to the repository by the seeded/configured stream: every PStochasticPattern subclass of the live package, seeded, configured through every / set_pattern / item assignment in the set-up and in mid-history, alone, nested, and containing further stochastic patterns seeded in any order, every clean segment compared with a newly constructed identically seeded and configured instance, recorded draws replayed through the model inside Coq.",
  "note": "Open (C04_reset_erases_step_leaf_partial): PReset over nested patterns, PRound PIndexOf PArrayIndex PDict PDictKey PConcatenate and list-/tuple-/dict-valued parameters are covered by the correspondence and the oracle, not by the theorem. Trusted: Coq kernel + VM; the harness. Stochastic classes: ranges, isolation and the generator contract are C11; their reset()/seed() is in Pat/Seeded.v (PArpeggiator RANDOM, PRandomImpulseSequence, the machines of Pat/Chance.v by embedding), the other seedable classes (PRandomExponential, regular PCoin/PSkip, pattern-valued parameters) by the oracle only. Configuration methods that draw (PMarkov.randomize) and PArpeggiator.notes= are not covered. Deterministic classes outside the model (PEuclidean PArpeggiator PNormalise PTri PSaw PPermut) are judged by the oracle only. Patterns stored inside tuples are not reached by Pattern.reset (the model transcribes that); the generator puts tuples of scalars only.",
 }
 
@@ -209,6 +209,8 @@ def check(run):
 # PRandomImpulseSequence with every(); PRef.set_pattern through Pat/Step.v (the re-configuration starts a new history).
 # ==========================================================================================================
 S_REFN = 40
+CASE_KEYS = ("inner", "objs", "wrap", "setup", "ops", "refs", "record")
+DOC_KEYS = ("cls", "inner", "objs", "stoch_names", "wrap", "setup", "ops", "refs", "stochastic")
 ARP_TYPES = ["UP", "DOWN", "CONVERGE", "DIVERGE", "RANDOM", "UPDOWN", "DOWNUP", "BUILD", "BREAK", "ROOTBOUNCE"]
 EVERY_ACTIONS = [("'generate'", "AGenerate"), ("'explore'", "AExplore"), ("'reset'", "AReset"), ("noop", "ANoop"), ("None", "ANone")]
 
@@ -302,6 +304,142 @@ def r_dict(r, gen):
             "config": lambda r2: ["call", "__setitem__", [repr(r.choice(["a", "b", "c"])), to_source(c)]]}
 
 
+# ---- stochastic patterns that directly CONTAIN stochastic patterns -------------------------------------------------------
+def k_white(r):
+    a = r.randint(0, 40)
+    b = a + r.randint(2, 60)
+    ln = r.choice([0, 0, 0, 5, 9])
+    return "iso.PWhite(%d, %d%s)" % (a, b, ", %d" % ln if ln else ""), ("white", a, b, ln)
+
+
+def k_brown(r):
+    init, step = r.randint(40, 60), r.randint(1, 4)
+    return "iso.PBrown(%d, %d, 30, 90)" % (init, step), ("brown", init, step, 30, 90)
+
+
+def k_shuffle(r):
+    vals, rep = _sints(r, 2, 6), r.randint(1, 3)
+    return "iso.PShuffle(%r, %d)" % (vals, rep), ("pshuffle", vals, rep)
+
+
+def k_other(r):
+    return r.choice([lambda: "iso.PChoice(%r)" % _sints(r, 2, 5), lambda: "iso.PArpeggiator(%r, iso.PArpeggiator.RANDOM, True)" % sorted(set(_sints(r, 2, 6))),
+                     lambda: "iso.PMarkov(%r)" % (_sints(r, 3, 7, 1, 4) + [1]), lambda: "iso.PWhite(%r, %r)" % (float(r.randint(0, 5)), float(r.randint(6, 20))),
+                     lambda: "iso.PRandomWalk(%r, 1, 2)" % _sints(r, 3, 6), lambda: "iso.PCoin(%r)" % r.choice([0.3, 0.5, 0.8])])(), None
+
+
+def r_nested(r):
+    """objs (inner objects first, X last), names of the stochastic ones, model of the nest or None"""
+    kid_src, kid_model = r.choice([k_white, k_white, k_brown, k_shuffle, k_other])(r)
+    t = r.random()
+    if t < 0.34:
+        play = r.choice([0.25, 0.5, 0.75, 0.3, 0.6, 0.9])
+        return {"cls": "PSkip", "objs": [["I0", kid_src], ["X", "iso.PSkip(I0, %r)" % play]], "stoch_names": ["I0", "X"],
+                "model": ("nest", "pskip", play, kid_model) if kid_model else None}
+    if t < 0.44:
+        return {"cls": "PCoin", "objs": [["I0", "iso.PWhite(%r, %r)" % (r.choice([0.1, 0.2, 0.3]), r.choice([0.7, 0.8, 0.9]))], ["X", "iso.PCoin(I0)"]],
+                "stoch_names": ["I0", "X"], "model": None}
+    if t < 0.56:
+        return {"cls": "PShuffleInput", "objs": [["I0", kid_src], ["X", "iso.PShuffleInput(I0, %d)" % r.randint(2, 5)]], "stoch_names": ["I0", "X"], "model": None}
+    if t < 0.66:
+        return {"cls": "PRandomWalk", "objs": [["I0", "iso.PWhite(1, %d)" % r.randint(2, 4)], ["X", "iso.PRandomWalk(%r, 1, I0)" % _sints(r, 3, 6)]],
+                "stoch_names": ["I0", "X"], "model": None}
+    if t < 0.74:
+        return {"cls": "PWhite", "objs": [["I0", "iso.PWhite(0, 10)"], ["I1", "iso.PWhite(20, 30)"], ["X", "iso.PWhite(I0, I1)"]],
+                "stoch_names": ["I0", "I1", "X"], "model": None}
+    if t < 0.82:
+        return {"cls": "PBrown", "objs": [["I0", "iso.PWhite(1, 4)"], ["X", "iso.PBrown(50, I0, 30, 90)"]], "stoch_names": ["I0", "X"], "model": None}
+    if t < 0.9:
+        return {"cls": "PSwitchOne", "objs": [["I0", "iso.PWhite(0, 20, 8)"], ["X", "iso.PSwitchOne(I0, 4)"]], "stoch_names": ["I0", "X"], "model": None}
+    # three levels, and a deterministic pattern between two stochastic ones
+    if r.random() < 0.5:
+        return {"cls": "PSkip", "objs": [["I0", kid_src], ["M", "iso.PSkip(I0, 0.7)"], ["X", "iso.PSkip(M, 0.5)"]], "stoch_names": ["I0", "M", "X"], "model": None}
+    return {"cls": "PSkip", "objs": [["I0", kid_src], ["X", "iso.PSkip(iso.PStutter(I0 + 1, 2), 0.6)"]], "stoch_names": ["I0", "X"], "model": None}
+
+
+def script_tail(rng, pre):
+    ops = pre + [["reset"]] + ["next"] * rng.randint(3, 12)
+    x = rng.random()
+    if x < 0.3:
+        ops += [["reset"]] + ["next"] * rng.randint(2, 8)
+    elif x < 0.45:
+        ops += ["next"] * rng.randint(0, 3) + [["reset"], ["reset"]] + ["next"] * rng.randint(2, 6)
+    elif x < 0.6:
+        ops += [["all", rng.randint(0, 9)]] + ["next"] * rng.randint(2, 6)
+    return ops
+
+
+def nested_script(rng, spec):
+    """seed() on the outer pattern and / or the inner ones, in any order, in the set-up and in the middle of the history"""
+    seedop = lambda n: ["callon", n, "seed", [str(rng.randint(0, 9999))]]
+    names = list(spec["stoch_names"])
+    setup = [seedop(n) for n in names if rng.random() < 0.88]
+    rng.shuffle(setup)
+    if setup and rng.random() < 0.15:
+        setup.append(seedop(rng.choice(names)))                   # seeded twice
+    pre = ["next"] * rng.choice([0, 0, 1, 1, 2, 3, 5, 8, rng.randint(0, 14)])
+    for _ in range(rng.choice([0, 0, 0, 1, 1, 2])):
+        pre.insert(rng.randint(0, len(pre)), seedop(rng.choice(names)))
+    return setup, script_tail(rng, pre)
+
+
+NEST_HEADER = """From Isobar Require Import Base.Prelude Pat.Chance Pat.Seeded Pat.SeededNest.
+From Coq Require Import QArith.
+Open Scope Z_scope.
+"""
+
+
+def kid_term(m):
+    if m[0] == "white":
+        return "(of_machine replay (white replay rp_unit false (inject_Z %s) (inject_Z %s) %s))" % (zlit(m[1]), zlit(m[2]), zlit(m[3]))
+    if m[0] == "brown":
+        return "(of_machine replay (brown replay rp_below %s %s %s %s))" % tuple(zlit(v) for v in m[1:])
+    return "(of_machine replay (pshuffle replay rp_below %s %s))" % (zlist(m[1]), zlit(m[2]))
+
+
+def nested_term(case, out):
+    """Coq boolean: Pat/SeededNest.v (PSkip over a child with a generator of its own), fed the draws recorded per object and
+    epoch, gives the observed outputs and every object asks its generator for exactly the recorded draws"""
+    _, _, play, km = case["model"]
+    eps, owners, opened = out["epochs"], out["owners"], out["opened"]
+    if km[0] == "white":                      # int(uniform(a, b)): keep away from the float rounding at integer boundaries
+        for e, ow in zip(eps, owners):
+            if ow == "I0":
+                for q, k in e:
+                    x = km[1] + (km[2] - km[1]) * Fraction(k, 2 ** 53)
+                    if x != round(x) and abs(x - round(x)) < Fraction(1, 2 ** 30):
+                        raise Unrepresentable("margin")
+    first = {ow: owners.index(ow) for ow in ("I0", "X")}
+    nops, exp = [], []
+    allops = case["setup"] + case["ops"]
+    ev = iter(out["events"])
+    for j, op in enumerate(allops):
+        o = next(ev) if j >= len(case["setup"]) else None
+        b, a = opened[j]
+        new = list(range(b, a))
+        if op == "next":
+            if new:
+                raise Unrepresentable("next() seeded a generator")
+            nops.append("NNext"); exp.append(kres_term(o))
+        elif op[0] == "reset":
+            if sorted(owners[e] for e in new) != ["I0", "X"]:
+                raise Unrepresentable("reset() seeded %r" % [owners[e] for e in new])
+            for e in new:
+                nops.append("(NKidSeed 0 %d)" % e if owners[e] == "I0" else "(NSeed %d)" % e)
+            nops.append("NReset")
+        elif op[0] == "callon" and op[2] == "seed":
+            if len(new) != 1 or owners[new[0]] != op[1]:
+                raise Unrepresentable("seed() seeded %r" % [owners[e] for e in new])
+            nops.append("(NKidSeed 0 %d)" % new[0] if op[1] == "I0" else "(NSeed %d)" % new[0])
+        else:
+            raise Unrepresentable("operation %r" % (op,))
+    strict = [blit(e not in first.values()) for e in range(len(eps))]
+    fr = Fraction(play)
+    return "(let eps := %s in check_nscript (pskip replay (%s # %d)) eps %s %s %d [(%s, %d)] %s %s)" % (
+        lst([zlist([k for _, k in e]) for e in eps]), zlit(fr.numerator), fr.denominator,
+        lst([zlist([q for q, _ in e]) for e in eps]), lst(strict), first["X"], kid_term(km), first["I0"], lst(nops), lst(exp))
+
+
 def seeded_script(rng, spec, stochastic):
     """set-up calls + script; returns (setup, ops)"""
     setup = []
@@ -336,17 +474,39 @@ def seeded_script(rng, spec, stochastic):
     return setup, ops
 
 
+def op_target(op):
+    return op[1] if op[0] == "callon" else "X"
+
+
+def op_method(op):
+    return op[2] if op[0] == "callon" else op[1]
+
+
+def op_args(op):
+    return op[3] if op[0] == "callon" else op[2]
+
+
 def seeded_segments(case):
-    """clean segments of a case: [(key, [observations])]; key = (seed call | None, tuple of configuration calls so far).
-    A segment starts at construction + set-up or after reset()/all() and ends at the next call that is not next()/all()."""
-    seed, cfgs = None, []
-    for op in case["setup"]:
-        if op[1] == "seed":
-            seed = op
+    """clean segments of a case: [(key, [observations], seed calls in force, configuration calls so far)].
+    A segment starts at construction + set-up or after reset()/all() and ends at the next call that is not next()/all().
+    Seed calls are kept per object (the pattern itself and the named stochastic patterns it contains), last one wins."""
+    names = [n for n, _ in case.get("objs") or []] or ["X"]
+    if names[-1] != "X":
+        names = names[:-1] + ["X"]                     # the last named object is X
+    alias = (case.get("objs") or [["X", None]])[-1][0]
+    seeds, cfgs = {}, []
+
+    def note(op):
+        if op_method(op) == "seed":
+            t = op_target(op)
+            seeds["X" if t == alias else t] = op
         else:
             cfgs.append(op)
+    for op in case["setup"]:
+        note(op)
     out, cur, clean = [], [], True
-    key = lambda: (json.dumps(seed), json.dumps(cfgs))
+    seedlist = lambda: [seeds[n] for n in names if n in seeds]
+    key = lambda: (json.dumps(seedlist()), json.dumps(cfgs))
     ev = case["events"]
     for op, o in zip(case["ops"], ev):
         if op == "next":
@@ -360,30 +520,47 @@ def seeded_segments(case):
                 if len(vals) < op[1]:
                     cur.append("stop")
             if clean:
-                out.append((key(), cur, seed, list(cfgs)))
+                out.append((key(), cur, seedlist(), list(cfgs)))
             # an exception inside all(): the object was not reset; nothing more is judged until the next reset()
             cur, clean = [], ok
         elif op[0] == "reset":
             if clean:
-                out.append((key(), cur, seed, list(cfgs)))
+                out.append((key(), cur, seedlist(), list(cfgs)))
             cur, clean = [], (o == {"y": None})
         else:
             if clean:
-                out.append((key(), cur, seed, list(cfgs)))
+                out.append((key(), cur, seedlist(), list(cfgs)))
             cur, clean = [], False
-            if op[1] == "seed":
-                seed = op
-            else:
-                cfgs.append(op)
+            note(op)
     if clean:
-        out.append((key(), cur, seed, list(cfgs)))
+        out.append((key(), cur, seedlist(), list(cfgs)))
     return out
 
 
+def all_seeded(case, seedlist):
+    """every stochastic object of the case has a seed in force (otherwise a fresh instance is no reference)"""
+    need = case.get("stoch_names")
+    if need is None:
+        need = ["X"] if case["stochastic"] else []
+    alias = (case.get("objs") or [["X", None]])[-1][0]
+    have = {("X" if op_target(o) == alias else op_target(o)) for o in seedlist}
+    return all(("X" if n == alias else n) in have for n in need)
+
+
+def build_lines(case):
+    if case.get("objs"):
+        return ["%s = %s" % (n, src) for n, src in case["objs"]] + (["X = %s" % case["objs"][-1][0]] if case["objs"][-1][0] != "X" else [])
+    return ["X = %s" % case["inner"]]
+
+
+def call_line(op):
+    return "%s.%s(%s)" % (op_target(op), op_method(op), ", ".join(op_args(op)))
+
+
 def seeded_snippet(case, upto=None):
-    lines = ["import isobar as iso", "def noop(): return None", "X = %s" % case["inner"]]
+    lines = ["import isobar as iso", "def noop(): return None"] + build_lines(case)
     for op in case["setup"]:
-        lines.append("X.%s(%s)" % (op[1], ", ".join(op[2])))
+        lines.append(call_line(op))
     lines.append("p = %s" % (case["wrap"] or "X"))
     for op in case["ops"][:upto]:
         if op == "next":
@@ -393,15 +570,15 @@ def seeded_snippet(case, upto=None):
         elif op[0] == "all":
             lines.append("print(p.all(%d))" % op[1])
         else:
-            lines.append("X.%s(%s)" % (op[1], ", ".join(op[2])))
+            lines.append(call_line(op))
     return "\n".join(lines)
 
 
-def fresh_snippet(case, seed, cfgs, n):
-    lines = ["# the newly constructed, identically seeded and configured instance", "Y = %s" % case["inner"]]
-    for op in ([seed] if seed else []) + cfgs:
-        lines.append("Y.%s(%s)" % (op[1], ", ".join(op[2])))
-    lines += ["q = %s" % (case["wrap"] or "X").replace("X", "Y"), "print(q.nextn(%d))" % n]
+def fresh_snippet(case, seeds, cfgs, n):
+    lines = ["# the newly constructed, identically seeded and configured instance"] + build_lines(case)
+    for op in list(seeds) + cfgs:
+        lines.append(call_line(op))
+    lines += ["q = %s" % (case["wrap"] or "X"), "print(q.nextn(%d))" % n]
     return "\n".join(lines)
 
 
@@ -416,9 +593,9 @@ def seeded_judge(case, out):
     refmap = {json.dumps(r["setup"]): obs for r, obs in zip(case["refs"], out["refs"])}
     first = {}
     for si, (key, obs, seed, cfgs) in enumerate(segs):
-        use_fresh = (not case["stochastic"]) or seed is not None
+        use_fresh = all_seeded(case, seed)
         if use_fresh:
-            robs = refmap.get(json.dumps(([seed] if seed else []) + cfgs))
+            robs = refmap.get(json.dumps(list(seed) + cfgs))
             if robs is None or robs[0] != {"y": None}:
                 continue
             ref, what = robs[1:], "a newly constructed instance with the same seed and configuration calls"
@@ -520,41 +697,55 @@ def check_seeded(run):
     plan = [(n, SEEDED_RECIPES[n], True) for n in sorted(SEEDED_RECIPES) if n in live for _ in range(per)]
     plan += [("PRandomImpulseSequence", r_impulse, True)] * (per * 3) + [("PArpeggiator", r_arp, True)] * (per * 2)
     plan += [("PRef", lambda r: r_ref(r, gen), False)] * (per * 2) + [("PDict", lambda r: r_dict(r, gen), False)] * per
+    plan += [("nested", r_nested, True)] * (per * 8)
     for cls, recipe, stochastic in plan:
         spec = recipe(rng)
-        setup, ops = seeded_script(rng, spec, stochastic)
-        wrap = rng.choice(WRAPS[3:]) if rng.random() < 0.42 else None
-        case = {"cls": cls, "inner": spec["inner"], "wrap": wrap, "setup": setup, "ops": ops, "stochastic": stochastic,
-                "model": spec.get("model"), "record": False}
+        if cls == "nested":
+            setup, ops = nested_script(rng, spec)
+            wrap = rng.choice(WRAPS[3:]) if rng.random() < 0.25 else None
+            case = {"cls": spec["cls"], "inner": spec["objs"][-1][1], "objs": spec["objs"], "stoch_names": spec["stoch_names"], "wrap": wrap,
+                    "setup": setup, "ops": ops, "stochastic": True, "model": spec.get("model"), "record": False, "contains": True}
+        else:
+            setup, ops = seeded_script(rng, spec, stochastic)
+            wrap = rng.choice(WRAPS[3:]) if rng.random() < 0.42 else None
+            case = {"cls": cls, "inner": spec["inner"], "objs": None, "wrap": wrap, "setup": setup, "ops": ops, "stochastic": stochastic,
+                    "model": spec.get("model"), "record": False}
         # reference runs: one per (seed in force, configuration calls so far) that a clean segment can have
         refs, seen = [], set()
         for key, _, seed, cfgs in seeded_segments(dict(case, events=[{"y": None}] * len(ops))):
-            if stochastic and seed is None:
+            if not all_seeded(case, seed):
                 continue
-            su = ([seed] if seed else []) + cfgs
+            su = list(seed) + cfgs
             if json.dumps(su) not in seen:
                 seen.add(json.dumps(su)); refs.append({"setup": su, "n": S_REFN})
         case["refs"] = refs
         if case["model"] and case["model"][0] in ("arp", "imp") and wrap is None and setup and setup[0][1] == "seed" \
                 and not any(isinstance(o, list) and o[0] == "all" for o in ops):
             case["record"] = True
+        if case["model"] and case["model"][0] == "nest" and wrap is None and all_seeded(case, setup) \
+                and not any(isinstance(o, list) and o[0] == "all" for o in ops):
+            case["record"] = True
         cases.append(case)
     shards = 12
     parts = [cases[i::shards] for i in range(shards) if cases[i::shards]]
-    payloads = [{"cases": [{k: c[k] for k in ("inner", "wrap", "setup", "ops", "refs", "record")} for c in part]} for part in parts]
+    payloads = [{"cases": [{k: c[k] for k in CASE_KEYS} for c in part]} for part in parts]
     outs = {}
     for part, res in zip(parts, run.impl_parallel("c04_impl", payloads)):
         for c, r in zip(part, res["cases"]):
             outs[id(c)] = r
     reported, devs = set(), []
-    terms, owners = [], []
+    terms, owners, nterms, nowners = [], [], [], []
     ref_cases = []
     for c in cases:
         out = outs[id(c)]
         run.count(); run.dist("stream.seeded"); run.dist("seeded." + c["cls"])
         run.dist("seeded.nested" if c["wrap"] else "seeded.alone")
-        run.dist("seeded.setup." + ("+".join(o[1] for o in c["setup"]) or "none"))
-        if any(isinstance(o, list) and o[0] == "call" for o in c["ops"]):
+        if c.get("contains"):
+            run.dist("seeded.contains-stochastic"); run.dist("seeded.contains." + c["cls"])
+            run.dist("seeded.contains.setup." + ("all-seeded" if all_seeded(c, c["setup"]) else "some-unseeded"))
+        else:
+            run.dist("seeded.setup." + ("+".join(o[1] for o in c["setup"]) or "none"))
+        if any(isinstance(o, list) and o[0] in ("call", "callon") for o in c["ops"]):
             run.dist("seeded.reconfigured-mid-history")
         try:
             dev = seeded_judge(c, out)
@@ -567,7 +758,12 @@ def check_seeded(run):
         if dev is not None:
             devs.append((bool(c["wrap"]), len(c["ops"]) + len(c["inner"]), len(devs), c, out, dev))
             continue
-        if c["record"] and out.get("epochs") is not None:
+        if c["record"] and out.get("epochs") is not None and c["model"][0] == "nest":
+            try:
+                nterms.append(nested_term(c, out)); nowners.append((c, out))
+            except Unrepresentable as e:
+                run.discard("seeded model: " + str(e).split(" ")[0])
+        elif c["record"] and out.get("epochs") is not None:
             try:
                 terms.append(seeded_term(c, out)); owners.append((c, out))
             except Unrepresentable as e:
@@ -585,13 +781,15 @@ def check_seeded(run):
     # smallest failing case of every (kind, class) first: alone before nested, short scripts before long ones
     for _, _, _, c, out, dev in sorted(devs, key=lambda t: t[:3]):
         kind = "fresh-seeded" if not dev["after_reset"] else ("configured-reset" if dev["cfgs"] else "seeded-reset")
+        if c.get("contains"):
+            kind += "-containing"
         sig = {"kind": kind, "class": c["cls"], "nested": bool(c["wrap"])}
         key = json.dumps({"kind": kind, "class": c["cls"]})
         if key in reported or len(reported) >= 6:
             continue
         reported.add(key)
         run.violation(sig, {
-            "case": {"seeded": {k2: c[k2] for k2 in ("cls", "inner", "wrap", "setup", "ops", "refs", "stochastic")}},
+            "case": {"seeded": {k2: c.get(k2) for k2 in DOC_KEYS}},
             "expected": "clean segment %d (%s), output %d: %s  [%s]" % (
                 dev["segment"], "after reset()/all()" if dev["after_reset"] else "from construction + set-up", dev["index"], dev["expected"], dev["what"]),
             "observed": dev["observed"], "segment_outputs": dev["segment_outputs"], "reference_outputs": dev["reference_outputs"],
@@ -610,8 +808,20 @@ def check_seeded(run):
             "broken": "correspondence Pat/Seeded.v (%s) vs the implementation: with the recorded draws replayed the model gives other outputs or asks "
                       "the generator for other draws; the theorems C04_reset_is_fresh_configured_instance / C04_fresh_seeded_is_what_reset_reproduces "
                       "no longer speak about this code" % ("arp_random" if c["model"][0] == "arp" else "impulse_seq"),
-            "case": {"seeded": {k2: c[k2] for k2 in ("cls", "inner", "wrap", "setup", "ops", "refs", "stochastic")}},
+            "case": {"seeded": {k2: c.get(k2) for k2 in DOC_KEYS}},
             "observed": [pretty_obs(o) for o in out["events"]], "epochs": out["epochs"], "coq_term": terms[i],
+            "python": seeded_snippet(c)}, found_input=False)
+    nbad = run.coq_failing(NEST_HEADER, nterms, chunk=60)
+    run.cov["traces_validated_against_impl"] += len(nterms) - len(nbad)
+    run.cov["seeded_nest_model_comparisons"] = len(nterms)
+    for i in nbad[:1]:
+        c, out = nowners[i]
+        run.violation({"kind": "correspondence", "class": c["cls"], "model": "Pat/SeededNest.v"}, {
+            "broken": "correspondence Pat/SeededNest.v (PSkip over a child that owns a generator: exec / ndo) vs the implementation: with the draws "
+                      "recorded per object replayed, the model gives other outputs or an object asks its generator for other draws; the theorems "
+                      "C04_nested_reset_is_fresh / C04_nested_seeding no longer speak about this code",
+            "case": {"seeded": {k2: c.get(k2) for k2 in DOC_KEYS}},
+            "observed": [pretty_obs(o) for o in out["events"]], "epochs": out["epochs"], "owners": out["owners"], "coq_term": nterms[i],
             "python": seeded_snippet(c)}, found_input=False)
     run_model(run, ref_cases)
     for mc in ref_cases:
@@ -631,11 +841,11 @@ def replay(run, doc):
     case = doc.get("case", {})
     if "seeded" in case:
         c = dict(case["seeded"], record=False)
-        out = run.impl("c04_impl", {"cases": [{k: c[k] for k in ("inner", "wrap", "setup", "ops", "refs", "record")}]})["cases"][0]
+        out = run.impl("c04_impl", {"cases": [{k: c.get(k) for k in CASE_KEYS}]})["cases"][0]
         print(seeded_snippet(c))
         print("observed:  ", [pretty_obs(o) for o in out["events"]])
         for r, obs in zip(c["refs"], out["refs"]):
-            print("fresh %r: %s" % ([o[1:] for o in r["setup"]], [pretty_obs(o) for o in obs[1:]]))
+            print("fresh %r: %s" % ([call_line(o) for o in r["setup"]], [pretty_obs(o) for o in obs[1:]]))
         try:
             dev = seeded_judge(c, out)
         except CannotJudge as e:
